@@ -365,7 +365,7 @@ pub fn run(ctx: &Ctx) -> Vec<Eng> {
             a
         });
     }
-    let (hz, k) = if ctx.thorough { (64, 3) } else { (24, 2) };
+    let (hz, k) = if ctx.thorough { (64, 3) } else { (40, 2) };
     let mut e3 = Eng::new(
         "c04-deviations",
         "all histories of exactly H events that differ from the default stream P(1 s, cycle of {0,1,-2,3}) in at most k positions, a deviation being one of {N, E1, P(0.5 s), P(2 s), P(1 us), P(1 h), P(1 s + 2^32 ns)}; full gain set; textbook reference + shift invariance + composition",
